@@ -46,6 +46,7 @@ char *v_strdup(const char *);
 char *v_strndup(const char *, size_t);
 long v_atol(const char *);
 int v_atoi(const char *);
+long long v_atoll(const char *);
 int v_vsnprintf(char *, size_t, const char *, va_list);
 int v_snprintf(char *, size_t, const char *, ...);
 #define strstr(...)     v_strstr(__VA_ARGS__)
@@ -56,6 +57,7 @@ int v_snprintf(char *, size_t, const char *, ...);
 #define strndup(...)    v_strndup(__VA_ARGS__)
 #define atol(...)       v_atol(__VA_ARGS__)
 #define atoi(...)       v_atoi(__VA_ARGS__)
+#define atoll(...)      v_atoll(__VA_ARGS__)
 #define vsnprintf(...)  v_vsnprintf(__VA_ARGS__)
 #define snprintf(...)   v_snprintf(__VA_ARGS__)
 
